@@ -85,7 +85,6 @@ def op (d : Sched) (ws : List String) : String × Sched :=
   | "d" :: t :: susp :: out :: _ =>
     match t.toNat?, parseOut out with
     | some t, some (o, bomb) =>
-      let d := d.settleAll
       let d := d.fire (.dispatch 0 t ⟨parseSusp susp, o⟩)
       let d := if bomb && d.s.accepted.contains t then { d with bombs := d.bombs ++ [t] } else d
       (if d.s.accepted.contains t then "acc" else "rej", d)
